@@ -29,24 +29,6 @@ theorem lookup_append {α : Type} (k : String) (xs : List (String × α)) (k' : 
 def Checked (v : Variant) (pol : Policy) (f : Factor ρ) (d : DropSet) : Prop :=
   checkFactor v pol f d = .ok d
 
-theorem setUpdate_of_subset (xs : List Nat) (d : DropSet) (h : ∀ i ∈ xs, i ∈ d) :
-    setUpdate d xs = d := by
-  unfold setUpdate
-  induction xs with
-  | nil => rfl
-  | cons x r ih =>
-    have hx : setAdd d x = d := by
-      unfold setAdd
-      rw [if_pos (h x (by simp))]
-    simp only [List.foldl_cons, hx]
-    exact ih (fun i hi => h i (by simp [hi]))
-
-theorem subset_of_setUpdate_eq (xs : List Nat) (d : DropSet) (h : setUpdate d xs = d) :
-    ∀ i ∈ xs, i ∈ d := by
-  intro i hi
-  rw [← h, mem_setUpdate]
-  exact Or.inr hi
-
 theorem checkFactor_of_checked (v : Variant) (pol : Policy) (f : Factor ρ) (d : DropSet)
     (h : Checked v pol f d) : checkFactor v pol f d = .ok d := h
 
